@@ -101,8 +101,12 @@ Definition frame_header (f : frame) : header :=
 
 Definition MsgCloseConnectionResponse : N := 4.
 
-(* what is configured: a MessageHandler for this type?  a default handler? *)
-Record config := mkConfig { has_handler : N -> bool; has_default : bool }.
+(* what is configured: a MessageHandler for this type?  a default handler?
+   [never_reply t]: messages of type t are never looked up in c.awaiting (since the fix for
+   C03/F2 the code exempts the reader-initiated KeepAlive, ROAccessReport and
+   ReaderEventNotification; before it, no type was exempt).  The theorems hold for every
+   such predicate; the check determines by probing which one the code implements. *)
+Record config := mkConfig { has_handler : N -> bool; has_default : bool; never_reply : N -> bool }.
 
 (* a MessageHandler as far as the connection can tell: it reads k bytes of what it is offered
    (fewer if fewer are there) and then returns or panics *)
@@ -163,8 +167,9 @@ Variable cfg : config.
 Definition pass_to_handler (aw : list N) (h : header) (e : env_step) (bs : list byte)
   : pth_result * list N :=
   let aw1 := register (e_register e) aw in
-  let needs := mem (h_id h) aw1 in
-  let aw2 := remove (h_id h) aw1 in
+  let consult := negb (never_reply cfg (h_typ h)) in
+  let needs := consult && mem (h_id h) aw1 in
+  let aw2 := if consult then remove (h_id h) aw1 else aw1 in
   let hk := pick_handler cfg (h_typ h) in
   let n := h_len h in
   let (pl, rest) := split_at n bs in
